@@ -1,13 +1,18 @@
 #!/bin/bash
-# tools/run_mutant.sh <patch.diff> <pid> [<pid>...] : apply a seeded change to /repo, run the quick checks, undo.
-patch=$1; shift
-cd /repo && git diff --quiet || { echo "/repo not clean"; exit 2; }
-git -C /repo apply "$patch" || { echo "patch does not apply"; exit 2; }
-trap 'git -C /repo checkout -- . ' EXIT
+# tools/run_mutant.sh <patch.diff> <pid> [<pid>...] : apply a seeded change to a scratch worktree of /repo's HEAD,
+# run the checks against it (FGGS_REPO), remove the worktree.  Never touches /repo's working tree.
+patch=$(readlink -f "$1"); shift
+name=$(basename $(dirname $patch))
+wt=/tmp/mw/$name.$$
+mkdir -p /tmp/mw
+git -C /repo worktree add --detach -q $wt HEAD || exit 2
+trap 'git -C /repo worktree remove --force '$wt EXIT
+( cd $wt && (git apply "$patch" || git apply -3 "$patch") ) || { echo "patch does not apply: $name"; exit 2; }
 cd /verif
 for pid in "$@"; do
-  ./check $pid --tier ${TIER:-quick} > /tmp/mut_$pid.out 2>&1; rc=$?
-  echo "== $pid rc=$rc $(grep -c '^VIOLATION' /tmp/mut_$pid.out) violation lines"
-  grep -A1 '^VIOLATION' /tmp/mut_$pid.out | head -${LINES_SHOWN:-6}
-  tail -1 /tmp/mut_$pid.out
+  out=/tmp/mw/$name.$pid.out
+  FGGS_REPO=$wt ./check $pid --tier ${TIER:-quick} > $out 2>&1; rc=$?
+  echo "== $name $pid rc=$rc violation_lines=$(grep -c '^VIOLATION' $out)"
+  grep -A1 '^VIOLATION' $out | head -${LINES_SHOWN:-4} | cut -c1-400
+  tail -1 $out | cut -c1-300
 done
